@@ -1,11 +1,17 @@
 // C11 harness: tests run through a real TestRegistry, some of them in a separate process.
-// Scenario (see checks/C11.py):   <all_sep 0|1> <ntests> test*
+// Scenario (see checks/C11.py):   [:ri] <all_sep 0|1> <ntests> ([:ign] test)*
+//   :ri   = registry-wide run-ignored switch (TestRegistry::setRunIgnored, "-ri");  :ign = the test is an IGNORE_TEST (its shell
+//           derives from IgnoredUtestShell)
 //   test ::= :plain <fail 0|1>
 //          | :scr <fork_ok 0|1> <n> wout*n         wout ::= :ei | :er <errno> | :x <k> | :k <sig> <core 0|1> | :s <sig> | :c
 //          | :real <n> act*n (x5: plugin pre action, setup, body, teardown, plugin post action) <n> inj*n
 //                                                  act ::= :r <sig> | :e <k> | :f        inj ::= :ei | :er | :re
 // Observation:  per test  ":t <started> <nf> cat*nf <waitpid calls> <SIGCONT seen> <lost>"   cat ::= :x | :k <sig> | :s | :fk | :wi | :w | :ck | :o
-//               then      ":end <failure count> <isFailure> <run count> <late>"
+//               then      ":end <failure count> <isFailure> <run count> <ignored count> <late>"
+// <started> of a test that is to run in a separate process: the runner asked for a child; of a test run in the current process and
+// of an ignored test that is not to run at all: it reached its first action point (plugin pre action) or a child was asked for.
+// Separate process: with all_sep = 0 scripted and real tests carry their own flag (UtestShell::setRunInSeperateProcess); with
+// all_sep = 1 NO test carries its own flag, every child comes from the registry-wide flag alone.
 // Scripted tests replace PlatformSpecificFork / PlatformSpecificWaitPid by stubs replaying the outcome list (errno set); the "child"
 // pid they report is the harness' own pid, so the runner's kill(pid, SIGCONT) is counted by a SIGCONT handler.  Real tests fork;
 // waitpid is the real one behind a wrapper that counts calls and can inject EINTR / an error in front of it.
@@ -38,6 +44,7 @@ struct Act { int kind; int arg; };                      // 0 raise, 1 _exit, 2 f
 struct Wout { int kind; int status; };                  // 0 EINTR, 1 other error, 2 status word
 struct TestDef {
     int kind;                                           // 0 plain, 1 scripted, 2 real
+    bool ign;                                           // IGNORE_TEST
     bool fail, forkOk;
     std::vector<Wout> ws;
     std::vector<Act> ph[5];
@@ -48,7 +55,7 @@ struct TestDef {
 };
 static std::vector<TestDef> gT;
 static int gCur = -1;
-static bool gAllSep;
+static bool gAllSep, gRunIgn;
 static volatile unsigned char* gMarks;                  // shared with the children: test i reached its first action point
 static volatile sig_atomic_t gLate;
 static volatile pid_t gLiveChild;
@@ -105,6 +112,13 @@ class ScriptedShell : public UtestShell
 public:
     int idx_;
     ScriptedShell(int i, const char* name) : UtestShell("G", name, "script.cpp", 1), idx_(i) {}
+    Utest* createTest() CPPUTEST_OVERRIDE { return new ScriptedUtest(idx_); }
+};
+class IgnoredScriptedShell : public IgnoredUtestShell      // what IGNORE_TEST(G, Ti) declares
+{
+public:
+    int idx_;
+    IgnoredScriptedShell(int i, const char* name) : IgnoredUtestShell("G", name, "script.cpp", 1), idx_(i) {}
     Utest* createTest() CPPUTEST_OVERRIDE { return new ScriptedUtest(idx_); }
 };
 
@@ -226,11 +240,14 @@ static int mainLoop()
     Toks t; Out o;
     while (readline(t)) {
         gT.clear(); gCur = -1; gLate = 0; gRunaway = false; gLiveChild = 0;
+        gRunIgn = false;
+        if (t.peek() == ":ri") { t.next(); gRunIgn = true; }
         gAllSep = t.n() != 0;
         int n = t.n();
         if (n > 4000) { fprintf(stderr, "harness: too many tests\n"); exit(3); }
         for (int i = 0; i < n; i++) {
-            TestDef d; d.kind = 0; d.fail = false; d.forkOk = true; d.calls = 0; d.conts = 0; d.cpid = 0; d.forkCalled = false; d.lost = false;
+            TestDef d; d.kind = 0; d.ign = false; d.fail = false; d.forkOk = true; d.calls = 0; d.conts = 0; d.cpid = 0; d.forkCalled = false; d.lost = false;
+            if (t.peek() == ":ign") { t.next(); d.ign = true; }
             std::string k = t.sym();
             if (k == "plain") { d.kind = 0; d.fail = t.n() != 0; }
             else if (k == "scr") {
@@ -258,28 +275,32 @@ static int mainLoop()
             gT.push_back(d);
         }
         memset((void*)gMarks, 0, 4096);
-        size_t total = 0, runCount = 0; bool isFail = false;
+        size_t total = 0, runCount = 0, ignCount = 0; bool isFail = false;
         {
             TestRegistry reg;
             TestRegistry* savedReg = TestRegistry::getCurrentRegistry();
             reg.setCurrentRegistry(&reg);
             ActionPlugin plugin;
             reg.installPlugin(&plugin);
-            std::vector<ScriptedShell*> shells; std::vector<std::string> names;
+            std::vector<UtestShell*> shells; std::vector<std::string> names;
             for (int i = 0; i < n; i++) names.push_back("T" + std::to_string(i));
-            for (int i = 0; i < n; i++) shells.push_back(new ScriptedShell(i, names[i].c_str()));
+            for (int i = 0; i < n; i++) {
+                if (gT[i].ign) shells.push_back(new IgnoredScriptedShell(i, names[i].c_str()));
+                else shells.push_back(new ScriptedShell(i, names[i].c_str()));
+            }
             for (int i = n - 1; i >= 0; i--) {           // addTest puts the new test in front
-                if (gT[i].kind != 0) shells[i]->setRunInSeperateProcess();
+                if (gT[i].kind != 0 && !gAllSep) shells[i]->setRunInSeperateProcess();   // own flag only without the registry-wide one
                 reg.addTest(shells[i]);
             }
             if (gAllSep) reg.setRunTestsInSeperateProcess();
+            if (gRunIgn) reg.setRunIgnored();
             RecOutput out;
             TestResult result(out);
             setDeadline(deadlineMs());
             reg.runAllTests(result);
             setDeadline(0);
             if (gLate) gLates++;
-            total = result.getFailureCount(); runCount = result.getRunCount(); isFail = result.isFailure();
+            total = result.getFailureCount(); runCount = result.getRunCount(); ignCount = result.getIgnoredCount(); isFail = result.isFailure();
             reg.setCurrentRegistry(savedReg);
             for (int i = 0; i < n; i++) delete shells[i];
         }
@@ -293,12 +314,13 @@ static int mainLoop()
         }
         for (int i = 0; i < n; i++) {
             TestDef& d = gT[i];
-            bool started = (d.kind != 0 || gAllSep) ? d.forkCalled : gMarks[i] != 0;   // separate process: the runner asked for a child
+            bool started = (d.ign && !gRunIgn) ? (d.forkCalled || gMarks[i] != 0)          // not to run at all
+                         : (d.kind != 0 || gAllSep) ? d.forkCalled : gMarks[i] != 0;       // separate process: the runner asked for a child
             o << ":t" << (started ? "1" : "0") << hx(d.cats.size());
             for (size_t j = 0; j < d.cats.size(); j++) o << d.cats[j];
             o << hx((unsigned)d.calls) << hx((unsigned)d.conts) << (d.lost ? "1" : "0");
         }
-        o << ":end" << hx(total) << (isFail ? "1" : "0") << hx(runCount) << ((gLate || gRunaway) ? "1" : "0");
+        o << ":end" << hx(total) << (isFail ? "1" : "0") << hx(runCount) << hx(ignCount) << ((gLate || gRunaway) ? "1" : "0");
         o.flush();
     }
     return 0;
@@ -318,7 +340,19 @@ int main()
         }
         if (w > 0) {
             int st = 0;
-            while (waitpid(w, &st, 0) < 0 && errno == EINTR) {}
+            for (;;) {
+                pid_t r = waitpid(w, &st, WUNTRACED);
+                if (r < 0 && errno == EINTR) continue;
+                if (r == w && WIFSTOPPED(st)) {
+                    // the session process itself was stopped: a test that should have had a child ran in the runner's own process.
+                    // Nobody would ever continue it -- report it as a death of the harness instead of hanging.
+                    fprintf(stderr, "harness: the runner's own process was stopped by signal %d\n", WSTOPSIG(st));
+                    kill(w, SIGKILL);
+                    while (waitpid(w, &st, 0) < 0 && errno == EINTR) {}
+                    return 70;
+                }
+                break;
+            }
             if (WIFSIGNALED(st)) { signal(WTERMSIG(st), SIG_DFL); raise(WTERMSIG(st)); return 128 + WTERMSIG(st); }
             return WEXITSTATUS(st);
         }
